@@ -4,6 +4,7 @@ import (
 	"bytes"
 	"fmt"
 	"hash/fnv"
+	"io"
 	"math/rand"
 	"runtime/debug"
 	"sort"
@@ -88,6 +89,11 @@ func poison() {
 
 // runLib renders the program with the real library (core environment, recording callbacks).
 func runLib(p *Program, pol gen.Policy, twigEnv bool) (o runOut) {
+	return runLibTo(p, pol, twigEnv, nil)
+}
+
+// runLibTo renders into the given destination (nil: a buffer, whose contents are the result's output).
+func runLibTo(p *Program, pol gen.Policy, twigEnv bool, dest io.Writer) (o runOut) {
 	src := p.sources(pol)
 	if poisonEvery > 0 {
 		// decided by the program text, so that a replayed case is preceded by the same renders
@@ -125,7 +131,11 @@ func runLib(p *Program, pol gen.Policy, twigEnv bool) (o runOut) {
 				o.pan = fmt.Sprintf("%v [%s]", r, panicSite())
 			}
 		}()
-		o.err = env.Execute(p.Main, &buf, ctx)
+		if dest != nil {
+			o.err = env.Execute(p.Main, dest, ctx)
+		} else {
+			o.err = env.Execute(p.Main, &buf, ctx)
+		}
 	}()
 	_, _, o.exSteps = mon.EndCall()
 	o.endBad = mon.TakeExecEndBad()
@@ -294,6 +304,19 @@ func modelCase(res *fw.Result, key string, prog *Program, pol gen.Policy, checkC
 	}
 	lib = runLib(prog, pol, false)
 	compareRuns(res, key, prog, lib, mod, checkCalls)
+	if hk := fnv.New32a(); true {
+		hk.Write([]byte(key))
+		if hk.Sum32()%16 == 7 && lib.pan == nil {
+			// where the output goes is no business of the execution: rendered into io.Discard (a destination a
+			// library might recognise) the template fails or succeeds alike and makes the same callbacks with
+			// the same arguments
+			d := runLibTo(prog, pol, false, io.Discard)
+			res.AddObs("renders_into_discard", 1)
+			if d.pan != nil || (d.err == nil) != (lib.err == nil) || callsString(d.calls) != callsString(lib.calls) {
+				res.Fail("destination-matters", key+":discard", fmt.Sprintf("rendered into io.Discard: error %v, panic %v, callbacks [%s]; rendered into a buffer: error %v, callbacks [%s]", d.err, d.pan, clip(callsString(d.calls), 400), lib.err, clip(callsString(lib.calls), 400)), prog.describe())
+			}
+		}
+	}
 	res.AddObs("exec_steps", lib.exSteps)
 	res.AddObs("model_steps", int64(steps))
 	res.AddObs("callbacks_observed", int64(len(lib.calls)))
